@@ -64,7 +64,8 @@ CallCase == [kind |-> "call", src |-> CallSrc, want |-> [i \in 1..Len(args) |-> 
 \* ---------------------------------------------------------------- subprocess macro
 Opens == << <<"$(", ")">>, <<"$[", "]">>, <<"!(", ")">>, <<"![", "]">> >>
 Rests == <<"hello  world", "-c 'x' (a b) [c]", "a, b; c", "if x: y", "$HOME `*`", "--opt=1 2>&1", "~u00e9~ \"q\"", "1 + + 2", "", "x",
-           "cat ~ufb01~le.txt ~u00b5~s", "f(a, b) xs[1: 2] tail", "( a ( b ) ) [ c ]">>
+           "cat ~ufb01~le.txt ~u00b5~s", "f(a, b) xs[1: 2] tail", "( a ( b ) ) [ c ]",
+           "a f'{x} y' b", "{a: [b, {c}]} ${x} {d,e}.txt", "g`*.py` f\"{u!r:>{w}} v\" r`x+`">>
 Pads == {"", " ", "  "}
 ProcCases == { [kind |-> "proc", src |-> Hosts[h][1] \o Opens[o][1] \o "echo!" \o pl \o Rests[r] \o pr \o Opens[o][2] \o Hosts[h][2] \o "\n" \o Followers[f],
                 want |-> <<"echo", Rests[r]>>, follower |-> Followers[f], host |-> h,
